@@ -372,6 +372,24 @@ func checkC10(e *core.Env) {
 		}
 	})
 	checkC10OpenMutation(e)
+
+	// the caller's cancellation and deadline reach the handler's context
+	inpc := NewInproc(&Service{}, carrierOpt{})
+	defer inpc.Close()
+	e.Cases("cancellation", e.N(24, 240), func(i int, r *rand.Rand) {
+		kind := Kind(i % 4)
+		mode := pick(r, "cancel", "deadline")
+		sc := genCancelScript(r, kind, false, "honour", 1<<20)
+		res := runPlaced(inpc, sc, mode, placement{"gate", 0})
+		if !res.finished || !res.reached {
+			e.Inconclusive("C10 cancellation: placement not reached (%s %s)", kind, mode)
+			return
+		}
+		e.Eval(fmt.Sprintf("cancellation|%s|%s", kind, mode), true)
+		if !res.run.HandlerCtxDone.Load() {
+			e.Violate("ctx/cancellation-not-propagated/"+mode, fmt.Sprintf("the caller's context ended (%s) while the %s handler was waiting on its own context, which never ended", mode, kind), witness(res.run))
+		}
+	})
 }
 
 // checkC10OpenMutation: the handler's metadata is a snapshot taken while NewStream runs; what the caller
